@@ -4,6 +4,8 @@
 // Case line:  <N>[L] chk op op ...   (chk must match how this binary was built: 1 = without NDEBUG, 0 = with NDEBUG)
 //   variant without suffix: TG = int,       TL = ParallelLocalIndex<Attr>
 //   variant with suffix L : TG = long long, TL = LocalIndex   (generic LocalIndexComparator; attribute/public printed as 0)
+//   variant with suffix S : TG = GIdx (class type with comparison operators only), TL = ParallelLocalIndex<int>; N in {2,100}
+//   r:k re-adds the k-th stored pair passing references into the set's own storage (aliasing)
 //   B | A:g:loc:attr:pub | a:g | D:k | E | R | X:g | T:g | G:g | S | Q | M | I | V:l | W:sz:l
 //   U:g:l (at(g).setLocal / at(g).local()=) | Z:w (operator==/!= against a rebuilt, perturbed set of another chunk size)
 //   K:i:j:g (12 IndexPair comparison operators) | Y:g (GlobalLookupIndexSet::operator[]) | J (GlobalLookupIndexSet begin/end)
@@ -17,6 +19,7 @@
 #include <sstream>
 #include <string>
 #include <vector>
+#include <type_traits>
 #include <dune/common/exceptions.hh>
 #include <dune/common/parallel/indexset.hh>
 #include <dune/common/parallel/plocalindex.hh>
@@ -25,18 +28,41 @@
 enum Attr { a0 = 0, a1, a2, a3, a4, a5, a6, a7, a8, a9 };
 typedef Dune::ParallelLocalIndex<Attr> PLI;
 
-// ---- the two local index types behind one small interface
-static PLI mk(const PLI*, std::size_t loc, int attr, bool pub)
-{ return loc == 0 ? PLI((Attr) attr, pub) : PLI(loc, (Attr) attr, pub); }      // 2-argument ctor: local index 0
+// ---- a class-type global index: only the comparison operators the index set is documented to need (no arithmetic, no
+// implicit conversions), so that code which silently assumes an integer global index does not compile
+struct GIdx {
+  int v;
+  GIdx() : v(0) {}
+  explicit GIdx(long long x) : v((int) x) {}
+  explicit operator long long() const { return v; }
+  GIdx operator+(int d) const { return GIdx((long long) v + d); }   // used by the harness only (perturbation in 'Z')
+  bool operator<(const GIdx& o) const { return v < o.v; }
+  bool operator>(const GIdx& o) const { return v > o.v; }
+  bool operator<=(const GIdx& o) const { return v <= o.v; }
+  bool operator>=(const GIdx& o) const { return v >= o.v; }
+  bool operator==(const GIdx& o) const { return v == o.v; }
+  bool operator!=(const GIdx& o) const { return v != o.v; }
+};
+static std::ostream& operator<<(std::ostream& os, const GIdx& g) { return os << g.v; }   // at() puts the global index into its RangeError message
+
+// ---- the local index types behind one small interface
+template<class A> static Dune::ParallelLocalIndex<A> mk(const Dune::ParallelLocalIndex<A>*, std::size_t loc, int attr, bool pub)
+{
+  typedef Dune::ParallelLocalIndex<A> L;
+  if (loc == 0) return L((A) attr, pub);                       // 2-argument ctor: local index 0
+  if (pub && loc % 2 == 1) return L(loc, (A) attr);            // default argument isPublic = true
+  return L(loc, (A) attr, pub);
+}
 static Dune::LocalIndex mk(const Dune::LocalIndex*, std::size_t loc, int, bool)
 { return loc == 0 ? Dune::LocalIndex() : Dune::LocalIndex(loc); }
-static int attr_of(const PLI& l) { return (int) l.attribute(); }
+template<class A> static int attr_of(const Dune::ParallelLocalIndex<A>& l) { return (int) l.attribute(); }
 static int attr_of(const Dune::LocalIndex&) { return 0; }
-static int pub_of(const PLI& l) { return l.isPublic() ? 1 : 0; }
+template<class A> static int pub_of(const Dune::ParallelLocalIndex<A>& l) { return l.isPublic() ? 1 : 0; }
 static int pub_of(const Dune::LocalIndex&) { return 0; }
-static void set_attr(PLI& l, int a) { l.setAttribute((Attr) a); }
+template<class A> static void set_attr(Dune::ParallelLocalIndex<A>& l, int a) { l.setAttribute((A) a); }
 static void set_attr(Dune::LocalIndex&, int) {}
-static PLI with_pub(const PLI& l, bool pub) { PLI r(l.local(), l.attribute(), pub); r.setState(l.state()); return r; }
+template<class A> static Dune::ParallelLocalIndex<A> with_pub(const Dune::ParallelLocalIndex<A>& l, bool pub)
+{ Dune::ParallelLocalIndex<A> r(l.local(), l.attribute(), pub); r.setState(l.state()); return r; }
 static Dune::LocalIndex with_pub(const Dune::LocalIndex& l, bool) { return l; }
 
 template<class P>
@@ -83,6 +109,14 @@ static std::string run(const std::vector<std::string>& t)
       case 'B': s.beginResize(); r = "ok"; break;
       case 'A': s.add((TG) f[0], mk((const TL*) 0, (std::size_t) f[1], (int) f[2], f[3] != 0)); r = "ok"; break;
       case 'a': s.add((TG) f[0]); r = "ok"; break;
+      case 'r': {                                               // aliasing: add() with references INTO the set's own storage
+        std::size_t k = (std::size_t) f[0];
+        if (k >= s.size()) { r = "PRECOND"; break; }
+        typename Set::iterator it = s.begin(); it += k;
+        const Pair& stored = *it;
+        if (stored.local().state() != Dune::VALID) { r = "PRECOND"; break; }   // add() would copy the DELETED state
+        s.add(stored.global(), stored.local()); r = "ok"; break;
+      }
       case 'D': {
         std::size_t k = (std::size_t) f[0];
         if (k >= s.size() && (!checking || s.state() == Dune::RESIZE)) { r = "PRECOND"; break; }
@@ -140,7 +174,8 @@ static std::string run(const std::vector<std::string>& t)
         break;
       }
       case 'V': {
-        Dune::GlobalLookupIndexSet<Set> gl(cs);
+        Dune::GlobalLookupIndexSet<Set> gl0(cs);
+        Dune::GlobalLookupIndexSet<Set> gl(gl0);                 // a copy of the lookup set must answer the same
         std::size_t l = (std::size_t) f[0];
         if (l >= gl.size()) { r = "PRECOND"; break; }
         const typename Dune::GlobalLookupIndexSet<Set>::IndexPair* p = gl.pair(l);
@@ -180,6 +215,14 @@ static std::string run(const std::vector<std::string>& t)
       }
       case 'Z': {
         int w = (int) f[0];
+        if (w == 7) {                                            // aliasing: both operands are the same object
+          bool eq = (cs == cs), ne = (cs != cs); r = bits({ eq, ne }); break;
+        }
+        if (w == 8) {                                            // a copy (shares the chunks) against its source
+          Set c(cs); bool eq = (cs == c), ne = (cs != c); r = bits({ eq, ne });
+          if ((c == cs) != eq) r += " (asymmetric)";
+          break;
+        }
         // second set with the same (perturbed) content.  With pairwise distinct (global, attribute) keys one batch is enough;
         // with equal keys std::sort leaves their order unspecified, so the pairs are added one per resize phase, last first
         // (merge() puts an added pair before equal old ones), which reproduces the iteration order deterministically.
@@ -218,15 +261,66 @@ static std::string run(const std::vector<std::string>& t)
         if ((s2 == cs) != eq) r += " (asymmetric)";
         break;
       }
+      case 'z': {
+        // operator== between instances with DIFFERENT global index types (int <-> long long) and chunk sizes, same local index type
+        // (instances with different local index types do not compile).  Same perturbations as 'Z'.
+        if constexpr (std::is_same<TG, GIdx>::value) { r = "UNSUPPORTED"; }
+        else {
+          typedef typename std::conditional<std::is_same<TG, int>::value, long long, int>::type TG2;
+          typedef Dune::ParallelIndexSet<TG2, TL, 6> SetO;
+          int w = (int) f[0];
+          std::vector<std::pair<TG2, TL> > content;
+          const std::size_t n = cs.size(); std::size_t k = 0; bool ties = false;
+          for (typename Set::const_iterator it = cs.begin(); it != cs.end(); ++it, ++k) {
+            TG2 g = (TG2) it->global(); TL l = it->local();
+            if (k + 1 == n) {
+              if (w == 1) l = l.local() + 1;
+              else if (w == 2) set_attr(l, attr_of(l) + 1);
+              else if (w == 3) l = with_pub(l, !pub_of(l));
+              else if (w == 4) g = g + 1;
+              else if (w == 5) continue;
+              else if (w == 6) l.setState(l.state() == Dune::VALID ? Dune::DELETED : Dune::VALID);
+            }
+            if (!content.empty() && content.back().first == g && attr_of(content.back().second) == attr_of(l)) ties = true;
+            content.push_back(std::make_pair(g, l));
+          }
+          SetO s2;
+          if (!ties) {
+            s2.beginResize();
+            for (std::size_t j = 0; j < content.size(); ++j) { TL l = content[j].second; l.setState(Dune::VALID); s2.add(content[j].first, l); }
+            s2.endResize();
+          } else
+            for (std::size_t j = content.size(); j-- > 0; ) { TL l = content[j].second; l.setState(Dune::VALID); s2.beginResize(); s2.add(content[j].first, l); s2.endResize(); }
+          { std::size_t j = 0;
+            for (typename SetO::iterator it = s2.begin(); it != s2.end() && j < content.size(); ++it, ++j) it->local().setState(content[j].second.state()); }
+          const SetO& cs2 = s2;
+          bool eq = (cs == cs2), ne = (cs != cs2);
+          r = bits({ eq, ne });
+          if ((cs2 == cs) != eq) r += " (asymmetric)";
+        }
+        break;
+      }
       case 'C': {
+        // special members, each read back at once: copy construction, copy assignment over a non-empty set, self-assignment,
+        // move construction, move assignment, std::swap.  The source `s` is read by the following ops of the history.
         Set c(cs); Set d; d.beginResize(); d.add((TG) 1); d.endResize(); d = cs;
-        std::string r1 = "[", r2 = "[";
-        const Set& cc = c; const Set& cd = d;
-        for (typename Set::const_iterator it = cc.begin(); it != cc.end(); ++it) r1 += pstr(*it);
-        for (typename Set::const_iterator it = cd.begin(); it != cd.end(); ++it) r2 += pstr(*it);
-        r1 += "]/" + std::to_string(cc.size()) + "/" + std::to_string(cc.seqNo()) + "/" + (c.state() == Dune::GROUND ? "GROUND" : "RESIZE");
-        r2 += "]/" + std::to_string(cd.size()) + "/" + std::to_string(cd.seqNo()) + "/" + (d.state() == Dune::GROUND ? "GROUND" : "RESIZE");
-        r = (r1 == r2) ? r1 : ("copy=" + r1 + ",assigned=" + r2); break;
+        { Set& dref = d; d = dref; }
+        Set c2(cs); Set m(std::move(c2));
+        Set c3(cs); Set ma; ma.beginResize(); ma.add((TG) 2); ma.endResize(); ma = std::move(c3);
+        Set c4(cs); Set sw; { using std::swap; swap(sw, c4); }
+        auto show = [](Set& x) {
+          const Set& cx = x; std::string q = "[";
+          for (typename Set::const_iterator it = cx.begin(); it != cx.end(); ++it) q += pstr(*it);
+          return q + "]/" + std::to_string(cx.size()) + "/" + std::to_string(cx.seqNo()) + "/" + (x.state() == Dune::GROUND ? "GROUND" : "RESIZE");
+        };
+        std::string r1 = show(c);
+        r = r1;
+        if (show(d) != r1) r += ",assigned=" + show(d);
+        if (show(m) != r1) r += ",move-constructed=" + show(m);
+        if (show(ma) != r1) r += ",move-assigned=" + show(ma);
+        if (show(sw) != r1) r += ",swapped=" + show(sw);
+        if (c4.size() != 0 || c4.seqNo() != 0 || c4.state() != Dune::GROUND) r += ",swapped-away=" + show(c4);
+        break;
       }
       default: r = "UNKNOWN-OP";
       }
@@ -244,7 +338,7 @@ static std::string run(const std::vector<std::string>& t)
 #ifdef C03_SAN_SUBSET
 #define NS X(1) X(3)      /* the sanitizer build instantiates two chunk sizes only (compile time) */
 #else
-#define NS X(0) X(1) X(2) X(3) X(4) X(7) X(100)
+#define NS X(-3) X(0) X(1) X(2) X(3) X(4) X(7) X(100)
 #endif
 
 int main(int argc, char** argv)
@@ -258,7 +352,12 @@ int main(int argc, char** argv)
     if (t.size() < 2) { std::cout << "BAD-CASE" << std::endl; continue; }
     int n = std::atoi(t[0].c_str());
     bool variantL = !t[0].empty() && t[0][t[0].size() - 1] == 'L';
+    bool variantS = !t[0].empty() && t[0][t[0].size() - 1] == 'S';
     std::string r = "UNSUPPORTED-N";
+    if (variantS) {                                            // class-type global index, ParallelLocalIndex<int>: two chunk sizes
+      if (n == 2) r = run<GIdx, Dune::ParallelLocalIndex<int>, 2>(t);
+      else if (n == 100) r = run<GIdx, Dune::ParallelLocalIndex<int>, 100>(t);
+    } else
     switch (n) {
 #define X(K) case K: r = variantL ? run<long long, Dune::LocalIndex, K>(t) : run<int, PLI, K>(t); break;
       NS
